@@ -20,9 +20,13 @@ func treeConfigs() []seqCfg {
 		b64(Value("d", 1)), recent, b64(Value("x", 1)), recent)
 	return []seqCfg{
 		{Name: "tree-two-secrets-server-changes-failures-polls-restart", Expiry: 0, Declared: []string{"d"}, Names: []string{"d", "x"}, Initial: initial, NoDedup: true,
-			Events: []string{"put:d", "back:d", "failnext:d", "nfnext:d", "put:x", "back:x", "failnext:x", "poll", "restart"}},
+			Events: []string{"put:d", "back:d", "failnext:d", "nfnext:d", "put:x", "back:x", "nfnext:x", "poll", "restart"}},
+		// the polling task's own polls (a ticker the history fires) mixed with explicit refreshes and server changes:
+		// every tick is a poll of its own
+		{Name: "tree-polling-task-ticks-and-refreshes", Expiry: 0, Declared: []string{"d"}, Names: []string{"d"}, Extra: []string{"x"}, Initial: initial, NoDedup: true, Poller: true,
+			Events: []string{"put:d", "back:d", "poll", "tick", "restart"}},
 		// versions told apart by number only: "dup" makes a new active version with the bytes of the one before
-		{Name: "tree-one-secret-equal-bytes-versions", Expiry: 0, Declared: []string{"d"}, Names: []string{"d"}, Initial: initial, NoDedup: true,
+		{Name: "tree-one-secret-equal-bytes-versions", Expiry: 0, Declared: []string{"d"}, Names: []string{"d"}, Extra: []string{"x"}, Initial: initial, NoDedup: true,
 			Events: []string{"put:d", "dup:d", "back:d", "failnext:d", "poll", "restart"}},
 	}
 }
@@ -110,7 +114,7 @@ func runSeqCfgs(env *report.Env, rep *report.Report, prop string, depthQuick, de
 	}
 	for _, cfg := range cfgs {
 		sec := rep.Add(&report.Section{Name: "seq-" + cfg.Name, Engine: "seqx", Exhaustive: true, Extra: map[string]int64{},
-			Rule:  "BFS over event histories (default alphabet: server put/activate-back/fail-next and, for the declared name, a new active version that repeats the bytes of the one before; Secret, read, LookupSecret per name; poll, restart-from-cache, clock +50s, clock +101s; 'tree' sections: a core alphabet with histories never merged) of a real Store with a scripted service and a virtual clock; successor = replay on a fresh Store; state = store dump + service state + cache document + clock + handle set; reference model stepped in lock-step; non-trivial = transitions into a new state",
+			Rule:  "BFS over event histories (default alphabet: server put/activate-back/fail-next, a not-found answer for the first undeclared name and, for the declared name, a new active version that repeats the bytes of the one before; Secret, read, LookupSecret per name; poll, restart-from-cache, clock +50s, clock +101s; 'tree' sections: a core alphabet with histories never merged) of a real Store with a scripted service and a virtual clock; successor = replay on a fresh Store; state = store dump + service state + cache document + clock + handle set; reference model stepped in lock-step; non-trivial = transitions into a new state",
 			Bound: fmt.Sprintf("depth %d, %d events", depth, len(events(cfg)))})
 		fs := &seqFailures{}
 		dir := hx.Scratch("storeseq-")
